@@ -109,12 +109,12 @@ def transform_of(c):
     return "offset" if c["k"] == 0 else "scaled-offset"
 
 
-def execute(ctx, vh, cases, name):
+def execute(ctx, vh, cases, name, par=1):
     d = ctx.scratch(name + "-exec")
     cp = os.path.join(d, "cases.ndjson")
     core.write_ndjson(cp, cases)
     tp = os.path.join(d, "trace.ndjson")
-    core.run_vh(vh, ["dt-exec", "-in", cp, "-out", tp], timeout=1800)
+    core.run_vh(vh, ["dt-exec", "-in", cp, "-out", tp, "-par", str(par)], timeout=1800)
     with open(tp) as f:
         return f.readlines()
 
@@ -167,6 +167,60 @@ def report(ctx, vh, cases, findings, confirm=True):
         what = "%s rejected the triangulation of %d points (%s: scale %d*2^%d, offset %s*2^%d, tag %s): %d triangles returned" % (
             f["pred"], f["n"], transform_of(c), c.get("mul", 1), c["k"], c["j"], c["m"], c.get("tag"), f["tris"])
         ctx.violation(sig, what, {"family": "delaunay", "pred": f["pred"], "case": c})
+
+
+PAR = 8
+
+
+def concurrent_pass(ctx, vh, cases, failed_alone):
+    """B3: the same calls made from PAR goroutines at the same time, each on its private input. A triangulation is a
+    function of its input; a case that is accepted when executed alone and rejected here was disturbed by another
+    call in flight. Reported with the transform 'concurrent'; confirmed by running the batch again."""
+    quick = ctx.tier == "quick"
+    pool = [c for c in cases if c["id"] not in failed_alone and len(c["pts"]) >= 4]
+    random.Random(ctx.seed + 7).shuffle(pool)
+    pool = pool[:3000 if quick else 20000]
+    batch = []
+    for c in pool:
+        cc = dict(c)
+        cc["orig"] = c["id"]
+        cc["id"] = len(batch)
+        batch.append(cc)
+    rounds = 2 if quick else 4
+    rejected = []
+    for rnd in range(rounds):
+        raw = execute(ctx, vh, batch, "par%d" % rnd, par=PAR)
+        findings, _ = judge(ctx, raw, "par%d" % rnd)
+        ctx.traces += len(raw)
+        ctx.evaluations += len(raw)
+        rejected.append(findings)
+    ctx.extra["b3_concurrent"] = {"goroutines": PAR, "cases": len(batch), "rounds": rounds,
+                                  "rejected_per_round": [len(x) for x in rejected]}
+    if not any(rejected):
+        return
+    if sum(1 for x in rejected if x) < 2:
+        # one more round decides whether it can be shown again
+        raw = execute(ctx, vh, batch, "parx", par=PAR)
+        again, _ = judge(ctx, raw, "parx")
+        if not again:
+            raise core.Infra("a rejection under concurrent execution was seen once in %d rounds and not again" % (rounds + 1))
+        rejected.append(again)
+    # alone, the rejected cases are accepted (else the sequential pass would have reported them)
+    seen = {}
+    for fs in rejected:
+        for f in fs:
+            seen.setdefault(f["pred"], f)
+    for pred, f in sorted(seen.items()):
+        c = batch[f["case"]]
+        alone = execute(ctx, vh, [dict(c, id=0)] * 1, "paralone")
+        af, _ = judge(ctx, alone, "paralone")
+        if af:
+            continue        # fails alone as well (map-order dependent): the sequential pass is the place for it
+        what = ("%s rejected the triangulation of %d points when %d goroutines triangulated private inputs at the same "
+                "time (rejected in %d of %d rounds; the same case executed alone is accepted)" %
+                (pred, f["n"], PAR, sum(1 for x in rejected if x), len(rejected)))
+        ctx.violation("%s/BowyerWatson/concurrent" % pred, what,
+                      {"family": "delaunay", "pred": pred, "concurrent": True, "case": {k: v for k, v in c.items() if k != "orig"}})
 
 
 def selftest(ctx, raw):
@@ -267,6 +321,7 @@ def run(ctx):
     raw = execute(ctx, vh, cases, "main")
     findings, notes = judge(ctx, raw, "main")
     report(ctx, vh, cases, findings)
+    concurrent_pass(ctx, vh, cases, {f["case"] for f in findings})
     total = len(raw)
     gp = total - notes["notGP"]
     bad_cases = len({f["case"] for f in findings})
@@ -314,6 +369,28 @@ def replay(ctx, path):
     vh = core.build_vh()
     case = dict(obj["case"])
     case["id"] = 0
+    if obj.get("concurrent"):
+        # the recorded case among rotated / truncated variants of itself, PAR goroutines, several rounds
+        pts = case["pts"]
+        batch = []
+        for i in range(3000):
+            r = i % len(pts)
+            v = (pts[r:] + pts[:r])[:max(3, len(pts) - i % 3)]
+            batch.append(dict(case, id=i, pts=v if i % 2 else pts))
+        findings = []
+        for rnd in range(4):
+            raw = execute(ctx, vh, batch, "replay%d" % rnd, par=PAR)
+            findings, notes = judge(ctx, raw, "replay%d" % rnd)
+            if findings:
+                break
+        for f in findings[:3]:
+            print("replay (concurrent): %s (%d points, %d triangles)" % (f["pred"], f["n"], f["tris"]))
+            ctx.violation("%s/BowyerWatson/concurrent" % f["pred"], "replayed under %d goroutines" % PAR, obj)
+        ctx.traces = ctx.evaluations = len(batch)
+        ctx.nontrivial = len(batch)
+        ctx.rule = "replay of one recorded case under concurrent execution"
+        ctx.sample({"replayed": path})
+        return
     raw = execute(ctx, vh, [case], "replay")
     findings, notes = judge(ctx, raw, "replay")
     for f in findings:
